@@ -39,7 +39,21 @@ pub struct Violation {
 
 impl Violation {
     pub fn new(oracle: &str, sig: impl Into<String>, detail: impl Into<String>) -> Violation {
-        Violation { oracle: oracle.to_string(), sig: sig.into(), detail: detail.into() }
+        // details quote sources and values; a megabyte-long source would otherwise end up in
+        // protocol lines and reports
+        let mut detail: String = detail.into();
+        if detail.len() > 6000 {
+            let mut cut = 3000;
+            while !detail.is_char_boundary(cut) {
+                cut -= 1;
+            }
+            let mut tail_at = detail.len() - 1500;
+            while !detail.is_char_boundary(tail_at) {
+                tail_at += 1;
+            }
+            detail = format!("{} ...[{} bytes left out]... {}", &detail[..cut], tail_at - cut, &detail[tail_at..]);
+        }
+        Violation { oracle: oracle.to_string(), sig: sig.into(), detail }
     }
     pub fn same_class(&self, other: &Violation) -> bool {
         self.oracle == other.oracle && self.sig == other.sig
